@@ -47,12 +47,18 @@ def run_bounded(prop, tier, seed, findings, only=None):
     return out
 
 
+def load_ledger():
+    p = os.path.join(HERE, 'baseline', 'obligations.json')
+    return json.load(open(p)) if os.path.exists(p) else {}
+
+
 def _replay_path(prop, n):
     d = os.path.join(HERE, 'replay'); os.makedirs(d, exist_ok=True)
     return os.path.join(d, f'{prop}-{n}.json')
 
 
 def finish(prop, tier, seed, results, bounded, findings, wall, write=True):
+    ledger = load_ledger()
     lines = []; violations = []; fault = []; undecided = []
     n_ob = n_dis = 0; by_backend = {}; solver_s = 0.0
     functions = []; samples = []; assumptions = set(); conc_cases = 0
@@ -77,9 +83,11 @@ def finish(prop, tier, seed, results, bounded, findings, wall, write=True):
             elif o['verdict'] == 'violation':
                 violations.append(dict(kind='P', obligation=o['id'], target=r['target'], where=r.get('where'), inputs=o.get('inputs'),
                                        replay=o.get('replay'), src_hash=r.get('src_hash')))
-            elif o['verdict'] == 'refuted-unreplayed':
+            elif o['verdict'] in ('refuted-unreplayed', 'encoding-mismatch') and ledger.get(f"{r['target']}.{o['clause']}") == 'discharged':
+                # the verifier refutes an obligation that was discharged on the baseline tree, but no input replays:
+                # reported as a violation of that named obligation, without a failing input (brief: no-failing-input-found)
                 violations.append(dict(kind='P', obligation=o['id'], target=r['target'], where=r.get('where'), inputs=o.get('inputs'),
-                                       no_input=True, solver=dict(model=o.get('solver_model'), replay_error=o.get('replay_error'),
+                                       no_input=True, replay=o.get('replay'), solver=dict(verdict='sat', model=o.get('solver_model'), replay_error=o.get('replay_error'),
                                                                  concretise_error=o.get('concretise_error')), src_hash=r.get('src_hash')))
             elif o['verdict'] == 'disagree':
                 fault.append(f"{o['id']}: solvers disagree")
